@@ -29,6 +29,12 @@ func init() {
 		"go.obtained":  goObtained,
 		"go.built":     goBuilt,
 		"cell.rehash":  execRehash,
+		"go.rehash": func(a []string) string { // the same scenario as a direct oracle: every entry point agrees at every h
+			if r := execRehash(a); strings.HasPrefix(r, "FAIL") {
+				return r
+			}
+			return "ok"
+		},
 		"go.accessors": goAccessors,
 		"go.builtdict": goBuiltDict,
 		"go.boc":       goBoc,
@@ -1044,6 +1050,7 @@ func genC02(g *h.G) {
 		g.Count("rehash_sequences")
 		g.NonTrivial("rehash:" + strings.Join(steps, "/"))
 		g.Emit("cell.rehash", strings.Join(steps, "/"))
+		g.Emit("go.rehash", strings.Join(steps, "/"))
 	}
 	for i := 0; i < g.Scale(300, 6000); i++ {
 		var t []h.Row
